@@ -623,6 +623,15 @@ def run_impostor_responder(notify, auth_kind):
     w.step(('acquire', 'A', 0, 0))
     msg1 = w.net[0]
     w.step(('drop', msg1.id))
+    if auth_kind == 'clear-informational-to-init':
+        # no key exchange at all: the IKE_SA_INIT request is answered with an empty, unprotected INFORMATIONAL response
+        for spir in (b'\0' * 8, b'\x4d' * 8):
+            data = F.clear(msg1.data[0:8], spir, 37, 0x20, 0)
+            delivered.append(('A', data))
+            w.step(('inject', 'A', data, B_ADDR))
+        w.step(('acquire', 'A', 0, 0))
+        w.net[:] = []
+        return w, delivered
     m_resp = as_m(lambda: ikesa.IkeSa(False, msg1.data[0:8], conf_as_b.get_ike_configuration(ip_address(B_ADDR), ip_address(A_ADDR)),
                                       ip_address(B_ADDR), ip_address(A_ADDR)))
     msg2m = as_m(lambda: m_resp.process_message(msg1.data))
@@ -630,6 +639,16 @@ def run_impostor_responder(notify, auth_kind):
     w.step(('inject', 'A', bytes(msg2m), B_ADDR))
     msg3 = w.net[0]
     w.step(('drop', msg3.id))
+    if auth_kind.startswith('other-exchange-'):
+        # the IKE_AUTH request is answered with an (empty, correctly protected) response of ANOTHER exchange type carrying
+        # the Message ID of the outstanding request: nothing in it authenticates anybody
+        m_resp.peer_msg_id = 1
+        res4 = as_m(lambda: m_resp.generate_response(int(auth_kind.rsplit('-', 1)[1]), []).to_bytes())
+        delivered.append(('A', bytes(res4)))
+        w.step(('inject', 'A', bytes(res4), B_ADDR))
+        w.step(('acquire', 'A', 0, 0))       # and if A now believes it has an IKE_SA, it will use it
+        w.net[:] = []
+        return w, delivered
     a3 = as_m(lambda: Message.parse(msg3.data, crypto=m_resp.peer_crypto))
     a_auth = [p for p in a3.encrypted_payloads if int(p.type) == F.AUTH][0]
     auth = {'zeros': PayloadAUTH(2, b'\0' * len(a_auth.auth_data)), 'reflected': a_auth,
@@ -900,6 +919,8 @@ def main():
     cases = plans_quick()
     cases += [('mitm', v) for v in ('own-auth-guessed-psk', 'relay-alices-id-and-auth', 'relay-alices-auth-only')]
     cases += [('mitm', 'impostor-responder:%d:%s' % (n, a)) for n in (0, 38, 14, 35) for a in ('zeros', 'reflected', 'random')]
+    cases += [('mitm', 'impostor-responder:0:%s' % a) for a in ('other-exchange-37', 'other-exchange-36', 'other-exchange-34',
+                                                                'clear-informational-to-init')]
     cases += [('mitm', 'impostor-initiator|%s|%s' % (c, g.hex())) for c in ('psk', 'rsa', 'mm:b-has-pubkey-and-psk-a-sends-psk-wrong')
               for g in (b'', b'testing2', b'alice@openikev2', b'testing-not', b'skip-auth')]
     outcomes = collections.Counter()
